@@ -5,6 +5,56 @@ from props.conc import *
 THEOREMS = ["C04_no_lost_wakeup", "C04_deadlock_free", "C04_bounded_steps"]
 
 
+def fault_cases(ck, count):
+    """inputs whose reads start FAILING (EIO: a read error, not end of file) part-way: at offset 0 (e.g. a directory opened as
+    input), inside a chunk, exactly on a chunk boundary; for decryption after the verification pass has read the file cleanly.
+    Real threads, small chunks; the operation must return (the driver's watchdog reports HANG otherwise)."""
+    from props.filegen import small_driver, small_env, rnd_bytes, rnd_key, rnd_seed, CH, split_impl
+    import tools.wv as wv_
+    exe = small_driver(ck)
+    env = small_env(ck)
+    r = ck.rng
+    lines, meta = [], {}
+    # valid files to decrypt
+    pre = []
+    for i in range(count // 2):
+        T = r.choice([1, 2, 4])
+        key = rnd_key(r)
+        n = r.choice([10, CH - 1, CH, CH + 5, 2 * CH, 3 * CH + 7, 5 * CH])
+        pre.append((T, key, n))
+    enc = wv_.run_lines([exe], ["p%d enc %d %d %d %s %s %s" % (i, r.randrange(5), r.randrange(3), T, key.hex(), rnd_seed(r).hex(), wv_.hexs(rnd_bytes(r, n))) for i, (T, key, n) in enumerate(pre)], env=env)
+    for i, (T, key, n) in enumerate(pre):
+        head, _ = split_impl(enc.get("p%d" % i, ""))
+        if not head.startswith("OK "):
+            continue
+        f = head.split()[1]
+        flen = len(f) // 2
+        body0 = 48 + 20 * T
+        # the verification pass delivers (flen - 48) bytes after header reads; fail somewhere in the second (pipeline) pass
+        for fa in (2 * flen, flen + body0, flen + body0 + CH, flen + body0 + CH + 3, 2 * flen - 5):
+            cid = "f%d_%d" % (i, fa)
+            lines.append("%s decf %d %s %s %d" % (cid, T, key.hex(), f, max(0, fa)))
+            meta[cid] = "read-error/decrypt/in-the-pipeline-pass"
+    for i in range(count // 2):
+        T = r.choice([1, 2, 4, 16])
+        n = r.choice([0, 10, CH, CH + 5, 3 * CH, 4 * CH + 9])
+        fa = r.choice([0, 0, 1, CH - 1, CH, CH + 1, 2 * CH, n])
+        cid = "g%d" % i
+        lines.append("%s encf %d %d %d %s %s %s %d" % (cid, r.randrange(5), r.randrange(3), T, rnd_key(r).hex(), rnd_seed(r).hex(), wv_.hexs(rnd_bytes(r, n)), fa))
+        meta[cid] = "read-error/encrypt/at-%s" % ("0" if fa == 0 else "chunk-boundary" if fa % CH == 0 else "inside-chunk")
+    res = wv_.run_lines([exe], lines, env=dict(env, WV_TIMEOUT_MS="8000"))
+    dist = ck.cov.setdefault("case_classes", {})
+    for l in lines:
+        cid = l.split()[0]
+        got = res.get(cid, "(no output)")
+        ck.cov["evaluations"] += 1
+        dist[meta[cid]] = dist.get(meta[cid], 0) + 1
+        if not got.startswith("RETURNED"):
+            ck.violation("the operation did not return when reads of its input started failing (%s): %s" % (meta[cid], got[:40]),
+                         {"class": None, "case": l[:4000], "case_class": meta[cid], "implementation": got[:300], "driver_flags": ck.impl_flags,
+                          "replay": "feed the line to harness/drv.cpp built against /repo (encf/decf: last field = number of bytes delivered before reads fail with EIO)"})
+
+
 def run(ck):
     ck.prove("Properties_C04", THEOREMS)
     exe = shim_driver(ck)
@@ -25,5 +75,6 @@ def run(ck):
     C03.analyse(ck, res, want=("deadlock", "trace", "output"))
     ck.cov["max_steps_seen"] = max([len(x["steps"]) for x in res] or [0])
     C03.end_to_end(ck, exe, 120 if big else 30)
-    return finish_proof(ck, rule="termination under seeded schedules of the real pipeline (scheduler shim reports 'no enabled thread while a thread is unfinished' as DEADLOCK and > 2*10^6 steps as LIVELOCK): empty inputs, inputs ending exactly on a chunk boundary, more workers than chunks (T up to 16), both directions, uniform and priority schedulers, extra yields inside critical sections in a quarter of the runs; every trace replayed on the Coq transition system (incl. the number of enabled threads at every step); whole encrypt/decrypt/verify under random schedules. distinct = distinct (T, direction, length, schedule)",
+    fault_cases(ck, 150 if big else 40)
+    return finish_proof(ck, rule="termination under seeded schedules of the real pipeline (scheduler shim reports 'no enabled thread while a thread is unfinished' as DEADLOCK and > 2*10^6 steps as LIVELOCK): empty inputs, inputs ending exactly on a chunk boundary, more workers than chunks (T up to 16), both directions, uniform and priority schedulers, extra yields inside critical sections in a quarter of the runs; every trace replayed on the Coq transition system (incl. the number of enabled threads at every step); whole encrypt/decrypt/verify under random schedules; encrypt/decrypt on input streams whose reads start failing (EIO) at offset 0, inside a chunk, on a chunk boundary, and during decryption's second pass (real threads; must return). distinct = distinct (T, direction, length, schedule)",
                         assumptions=C03.ASSUME + ["proved: no lost wake-up, deadlock freedom for every reachable state, and a bound on the length of every schedule (strictly decreasing potential): every maximal execution ends in the terminal state"])
